@@ -234,12 +234,20 @@ func runKV(f *vevid.Flags, rep *vevid.Report, descs []caseDesc, dirName string, 
 			rep.Outcome(fmt.Sprintf("%s %s files=%d n=%d", kindOf(c.desc), stage, len(c.parts), wm.n()))
 		}
 	}
+	// anomaly = the kv family did not end up in the expected shape. On a correct lindb this never happens; when the
+	// flusher/merger under test fails (error or nothing written) it is an observation about them, so it is reported as
+	// a violation of the round-trip / merge clause (never as a harness error), attributed to the first case.
+	anomaly := func(clause, site, format string, a ...interface{}) {
+		c := cases[0]
+		ck := &chk{rep: rep, desc: c.desc, kind: kindOf(c.desc), group: "kv", stage: "kv-family", m: c.whole}
+		ck.bad(clause, site, format, a...)
+	}
 	compact := func(tag string) {
 		before := l0()
 		family.Compact()
 		kv.VerifFamilyWait(family)
 		if after := l0(); before > 1 && after != 0 {
-			vevid.Fatal("%s: compaction did not run (level0 files before=%d after=%d)", tag, before, after)
+			anomaly("merge", "kv compaction job (IndexKVMerger.Merge)", "%s failed: level0 files before=%d after=%d (the merger returned an error for some bucket id of this worker)", tag, before, after)
 		}
 		rep.Count("compactions", 1)
 	}
@@ -254,7 +262,7 @@ func runKV(f *vevid.Flags, rep *vevid.Report, descs []caseDesc, dirName string, 
 		})
 	}
 	if got := l0(); got != maxParts {
-		vevid.Fatal("expected %d level0 files after the flushes, found %d", maxParts, got)
+		anomaly("serialise", "IndexKVFlusher", "expected %d level0 files after %d flushes, found %d", maxParts, maxParts, got)
 	}
 	rep.Count("kv_cases", int64(len(cases)))
 	whole := func(c *kvCase) *model { return c.whole }
